@@ -314,6 +314,7 @@ class State:
         s.exp_args = getattr(self, 'exp_args', ())
         s.exp_zero = getattr(self, 'exp_zero', 0)
         s.exp_conc = getattr(self, 'exp_conc', ())
+        s.exp_scope = getattr(self, 'exp_scope', None)
         return s
 
     # --- memory
